@@ -105,7 +105,7 @@ func capCandidates(kmax int) []int {
 
 func genCap(r *core.Rand, tier string) core.Case {
 	lines := []string{"@ C10 synccap"}
-	cands := capCandidates(22)
+	cands := capCandidates(20) // the Extra covers k <= 22 (28 in thorough)
 	for k := r.Range(3, 9); k > 0; k-- {
 		var n int
 		switch r.Pick(50, 30, 10, 5, 5) {
